@@ -466,15 +466,30 @@ func checkAbortAttribution(c *Ctx, r *Run) {
 				src = cc // a package-level error variable: classified by the text it is initialised with
 			}
 			var verifyCall *ssa.Call
+			verifyName := ""
 			if dependsOn(src, func(v ssa.Value) bool {
 				cc, ok := v.(*ssa.Call)
-				if ok && cc.Call.StaticCallee() != nil && (canonFnName(cc.Call.StaticCallee()) == "verifyMessage" || canonFnName(cc.Call.StaticCallee()) == "verifyBroadcastMessage") {
-					verifyCall = cc
-					return true
+				if !ok {
+					return false
 				}
-				return false
+				// statically, or through a local function value that is one of the two verifiers on every path
+				cands := calleeCandidates(cc)
+				var names []string
+				for _, f := range cands {
+					if n := canonFnName(f); n == "verifyMessage" || n == "verifyBroadcastMessage" {
+						names = append(names, f.Name())
+					} else {
+						return false
+					}
+				}
+				if len(names) == 0 {
+					return false
+				}
+				sort.Strings(names)
+				verifyCall, verifyName = cc, strings.Join(names, "/")
+				return true
 			}) && verifyCall != nil {
-				m := verifyCall.Call.Args[1]
+				m := normArgs(verifyCall)[1]
 				ok := len(culprits) == 1 && !spread
 				if ok {
 					ok = false
@@ -496,9 +511,9 @@ func checkAbortAttribution(c *Ctx, r *Run) {
 						}
 					}
 				}
-				r.Check("OB-B1", key+"|"+verifyCall.Call.StaticCallee().Name()+"-error@"+fn.Name()+siteIdx(call), c.Pos(call.Pos()), ok,
-					"a message that fails decoding/verification is attributed to its own sender (the From of the very message handed to "+verifyCall.Call.StaticCallee().Name()+")",
-					"the culprit of a failed "+verifyCall.Call.StaticCallee().Name()+" is "+culpritDesc(fn, culprits)+", not the From field of the message that was being processed: an honest party can be blamed")
+				r.Check("OB-B1", key+"|"+verifyName+"-error@"+fn.Name()+siteIdx(call), c.Pos(call.Pos()), ok,
+					"a message that fails decoding/verification is attributed to its own sender (the From of the very message handed to "+verifyName+")",
+					"the culprit of a failed "+verifyName+" is "+culpritDesc(fn, culprits)+", not the From field of the message that was being processed: an honest party can be blamed")
 				return
 			}
 			if cc, ok := src.(*ssa.Call); ok && isCallToPkgFunc(cc, "fmt", "Errorf") {
